@@ -251,3 +251,8 @@ fn paeth_predictor(a: u8, b: u8, c: u8) -> u8 {
         c
     }
 }
+
+#[cfg(feature = "verif")]
+pub(crate) fn verif_paeth_predictor(a: u8, b: u8, c: u8) -> u8 {
+    paeth_predictor(a, b, c)
+}
